@@ -2,14 +2,14 @@ package h
 
 import (
 	"bytes"
-	"net/url"
-	"sync"
 	"encoding/json"
 	"encoding/pem"
 	"fmt"
+	"net/url"
 	"os"
 	"sort"
 	"strings"
+	"sync"
 	"time"
 
 	"github.com/ProtonMail/go-crypto/openpgp"
@@ -28,18 +28,18 @@ func init() {
 var clientProc sync.Mutex
 
 type c14Req struct {
-	ID     int
-	Client string
-	Kind   string // sign list getkey health
-	Case   *signCase
-	Key    string
-	Ident  string
-	Status int
-	Body   []byte
-	CType  string
-	Start  time.Duration
-	End    time.Duration
-	Verify string // "" ok, else what is wrong
+	ID      int
+	Client  string
+	Kind    string // sign list getkey health
+	Case    *signCase
+	Key     string
+	Ident   string
+	Status  int
+	Body    []byte
+	CType   string
+	Start   time.Duration
+	End     time.Duration
+	Verify  string // "" ok, else what is wrong
 	Timeout time.Duration
 }
 
@@ -74,6 +74,9 @@ func c14Isolation(r *core.Run, scheduled bool) {
 	// relic's own goroutines, which must not draw from the tape): pings that
 	// succeed slowly, up to just under the 1 s ping timeout, and signing and
 	// key look-ups that take a few virtual milliseconds
+	// the tokens may be served the way PKCS#11 tokens are: through a worker
+	// token, every operation an RPC to the worker's handler
+	workerBacked := t.Chance(1, 3, "worker-backed-token")
 	slowTokens := t.Chance(1, 2, "slow-tokens")
 	tokDelay := map[string][]time.Duration{}
 	if slowTokens {
@@ -104,9 +107,27 @@ func c14Isolation(r *core.Run, scheduled bool) {
 		cfg.Clients[pki["client-fp-1"].Fingerprint] = &config.ClientConfig{Nickname: "alice", Roles: []string{"r1", "r2"}}
 		cfg.Clients[pki["client-fp-2"].Fingerprint] = &config.ClientConfig{Nickname: "bob", Roles: []string{"r2"}}
 		cfg.AuditFile = w.Path("audit.log")
+		if workerBacked {
+			// (both: relic walks its tokens in Go map order, which no seed
+			// controls, so the two must look alike to the schedule)
+			cfg.Tokens["tokA"].Type = simWorkerType
+			cfg.Tokens["tokB"].Type = simWorkerType
+		}
 		must(cfg.Normalize(""))
 		defer useConfig(cfg)()
 		world.Bind(w)
+		if workerBacked {
+			wrt, restore := useSimWorker(w)
+			defer restore()
+			defer func() {
+				wrt.mu.Lock()
+				n := wrt.RPCs
+				wrt.mu.Unlock()
+				if n > 0 {
+					r.Probe("worker-token-rpcs")
+				}
+			}()
+		}
 		if slowTokens {
 			w.TokenPlan = func(tok *world.SimToken, op, key string, n int) world.TokOutcome {
 				k := tok.Name + "/" + op
@@ -149,11 +170,11 @@ func c14Isolation(r *core.Run, scheduled bool) {
 			}
 		}
 		type plan struct {
-			kind    string
-			c       *signCase
-			key     string
-			think   time.Duration
-			timeout time.Duration // the caller gives up after this long (0: never)
+			kind       string
+			c          *signCase
+			key        string
+			think      time.Duration
+			timeout    time.Duration // the caller gives up after this long (0: never)
 			stampedeAt time.Duration
 		}
 		plans := make([][]plan, nclients)
